@@ -184,7 +184,13 @@ func (eng *Engine) writeEvidence(prop, tier string, pc *PropConfig, obls []*Obli
 		}
 		samples = append(samples, map[string]any{"obligation": o.Name, "kind": o.Kind, "source": o.Src, "result": o.Result, "backend": o.Solver, "time_s": round3(o.Time), "smt_bytes": size})
 	}
-	var trusted []string
+	trusted := []string{"the verifier itself (govc: go/ssa front end, VC generator, contract parser) and the SMT solvers"}
+	if pc.NotDecided == nil {
+		pc.NotDecided = []string{}
+	}
+	if pc.Bounded == nil {
+		pc.Bounded = []string{}
+	}
 	for k, c := range eng.cs.Funcs {
 		if (c.Kind == "extern" || c.Kind == "iface" || c.Kind == "fnfield" || c.Trusted) && c.Bound {
 			s := c.Kind + " " + k
